@@ -132,6 +132,17 @@ def r1b_callers(ctx, F):
             ctx.analysed("%s Process{max_cycles: <- %s}" % (fn.loc(s["ln"]), srcs))
             if not any(c.endswith("ExecutionOptions::max_cycles") for c in srcs):
                 ctx.violation("max_cycles-provenance|%s" % fn.id, fn.loc(s["ln"]), "Process.max_cycles is not taken from ExecutionOptions::max_cycles()")
+                continue
+            # ... and it is that value itself: the field operand is (through plain copies) the result of the accessor call, not a
+            # value computed from it
+            dc = def_call(fn, r["ops"][idx])
+            dc = dc[2] if dc is not None else None      # ("c", block, terminator)
+            exact = dc is not None and dc["f"].get("fn", "").endswith("ExecutionOptions::max_cycles")
+            ctx.oblig(exact)
+            if not exact:
+                how = dc["f"].get("fn", "?") if dc is not None else "a computed value"
+                ctx.violation("max_cycles-altered|%s" % fn.id, fn.loc(s["ln"]), "Process.max_cycles is %s over %s, not the configured ExecutionOptions::max_cycles() itself: the enforced limit differs from the requested one"
+                              % (how, sorted(set(c.rsplit("::", 2)[-2] + "::" + c.rsplit("::", 1)[-1] for c in srcs))))
     ctx.floor("Process-literals", n, 1)
     getter = F.fn(r"^miden_air::options::ExecutionOptions::max_cycles$")
     ret = [s for b in getter.blocks for s in b["s"] if s["d"]["l"] == 0]
